@@ -163,8 +163,16 @@ impl DecodeBeatmap for Probe {
 /// C06 on a file given as a list of lines (joined with LF): for every line the section parser
 /// rejected, the decoded map must equal the map decoded from the file without that line.
 pub fn prop_c06(lines: &[String]) -> String {
-    let text = lines.join("\n");
-    let Ok(full) = rosu_map::from_bytes::<Probe>(text.as_bytes()) else { return "FAIL decode error".to_owned() };
+    let raw: Vec<Vec<u8>> = lines.iter().map(|l| l.as_bytes().to_vec()).collect();
+    prop_c06_raw(&raw)
+}
+
+/// the same on raw byte lines (they may hold bytes that are not valid UTF-8: the reader replaces them line by line)
+pub fn prop_c06_raw(raw: &[Vec<u8>]) -> String {
+    let lines: Vec<String> = raw.iter().map(|l| String::from_utf8_lossy(l).into_owned()).collect();
+    let lines = &lines[..];
+    let text = raw.join(&b'\n');
+    let Ok(full) = rosu_map::from_bytes::<Probe>(&text) else { return "FAIL decode error".to_owned() };
     let full_dump = dump_beatmap(&full.map);
     // map parser calls back to line indices with the independent framing transcription
     let Some(calls) = crate::frame::spec_frame_idx(lines) else { return "SKIP framing".to_owned() };
@@ -177,10 +185,10 @@ pub fn prop_c06(lines: &[String]) -> String {
             continue;
         }
         rejected += 1;
-        let mut without: Vec<&str> = lines.iter().map(String::as_str).collect();
+        let mut without: Vec<&[u8]> = raw.iter().map(Vec::as_slice).collect();
         without.remove(*idx);
-        let t2 = without.join("\n");
-        match rosu_map::from_bytes::<Beatmap>(t2.as_bytes()) {
+        let t2 = without.join(&b'\n');
+        match rosu_map::from_bytes::<Beatmap>(&t2) {
             Ok(m) => {
                 let d = dump_beatmap(&m);
                 if d != full_dump {
@@ -254,7 +262,7 @@ pub fn dispatch_prop(toks: &[&str]) -> Option<String> {
     match toks {
         ["total", hex] => Some(prop_total(&unhex(hex))),
         ["dec9", hex] => Some(prop_dec9(&unhex(hex))),
-        ["c06", hexes @ ..] => Some(prop_c06(&crate::sections::lines_of(hexes))),
+        ["c06", hexes @ ..] => Some(prop_c06_raw(&hexes.iter().map(|h| unhex(h)).collect::<Vec<_>>())),
         _ => None,
     }
 }
